@@ -137,14 +137,14 @@ func r091(c *Ctx, r *R) {
 	lm := c.fn(r, "monitor/pubsubmon", "Monitor.LogMetric")
 	if lm != nil {
 		adds := findCalls(lm, false, "metrics.Store).Add")
-		ok := len(adds) == 1 && len(guardsOf(adds[0].Block())) == 0 && paramIndex(lm, callArgs(adds[0].Common())[0]) == 2
+		ok := len(adds) == 1 && onEveryPath(adds[0]) && paramIndex(lm, callArgs(adds[0].Common())[0]) == 2
 		r.Check(ok, "logmetric:unconditional", lm.Pos(), "every received metric is stored (an invalid one supersedes an older valid one)", "LogMetric drops some metrics: a peer's older valid metric stays the latest after it reported an invalid one")
 	}
 	// Store.Add appends to the peer's window for the metric's name
 	sa := c.fn(r, "monitor/metrics", "Store.Add")
 	if sa != nil {
 		adds := findCalls(sa, false, "metrics.Window).Add")
-		r.Check(len(adds) == 1 && len(guardsOf(adds[0].Block())) == 0, "store-add:unconditional", sa.Pos(), "Store.Add always appends to the peer's window", "Store.Add does not always append the metric to the window")
+		r.Check(len(adds) == 1 && onEveryPath(adds[0]), "store-add:unconditional", sa.Pos(), "Store.Add always appends to the peer's window", "Store.Add does not always append the metric to the window")
 	}
 }
 
